@@ -381,7 +381,30 @@ def r09_8(chk):
     chk.floor("R09.8", 1, "the midpoint climb")
 
 
+def r09_9(chk):
+    chk.rule("R09.9", "the clade sets behind the tree distances are computed from the tree as it is NOW: TreeNode.subsets() writes its per-node scratch attribute (__leaf_set) for every node it visits before reading it -- a value left by an earlier call is never reused (nothing invalidates it when tips are pruned or renamed, and copies inherit it), otherwise distances between equal topologies are non-zero after an in-place edit")
+    from ..cfg import build, own_exprs
+
+    m = chk.repo.module(TREE)
+    fn = m.func("TreeNode.subsets")
+    loops = [f for f in walk_no_nested(fn) if isinstance(f, ast.For) and isinstance(f.target, ast.Name)]
+    if not loops:
+        raise AnalysisError("TreeNode.subsets: traversal loop not found")
+    lp = loops[0]
+    v = lp.target.id
+    attr = None
+    for st in ast.walk(lp):
+        if isinstance(st, ast.Assign) and isinstance(st.targets[0], ast.Attribute) and norm(st.targets[0].value) == v and "leaf_set" in st.targets[0].attr:
+            attr = st.targets[0].attr
+    if attr is None:
+        raise AnalysisError("TreeNode.subsets: scratch attribute store not found")
+    reads = [x for x in ast.walk(lp) if isinstance(x, ast.Attribute) and x.attr == attr and isinstance(x.ctx, ast.Load) and norm(x.value) == v]
+    chk.decide(not reads, "R09.9", key(m, "TreeNode.subsets", f"{attr} of the visited node is written, never reused"), m.loc(reads[0]) if reads else m.loc(lp), f"only children's {attr} (written earlier in this post-order pass) are read", f"`{norm(reads[0]) if reads else ''}` reads the scratch attribute of the node being visited, i.e. a value left by an earlier call: after tips are pruned or renamed in place (or on a copy, which inherits the attribute) subsets() still reports the old clades and rrf / mc / urf / lrm / compare_by_subsets are non-zero for equal topologies")
+    chk.floor("R09.9", 1, "one traversal")
+
+
 def run(chk):
+    r09_9(chk)
     r09_8(chk)
     r09_7(chk)
     r09_6(chk)
